@@ -173,6 +173,21 @@ CLAIMED = {
         "note": TRUSTED,
         "technique": "static analysis: arithmetic expression trees over MIR (operand provenance through +/-), guard-in-force check of the column helper, constant comparison",
     },
+    "C17": {
+        "text": "Static provenance / placement / decision rules: ConfigFragment::merge takes every optional setting as later.or(earlier), "
+                "the later path, and earlier rewrite rules followed by later ones; select_impl keeps a document iff the file path contains "
+                "its path, orders them by a stable sort keyed on path length (ascending) and folds merge(accumulated, next) left to "
+                "right; Extractor::extract applies rules front to back on the running fragment and merges each result back; "
+                "Fragment+=, Fragment+Matched and ExtractRule give precedence captures < rule payee, later < earlier never, account "
+                "replaced by the rule's account; the cleared flag equals cleared||!pending on all four cases and changes only for "
+                "account-assigning rules; OR-lists are consumed by a first-match combinator and AND-lists by an all-must-match fold "
+                "threading the fragment; all three matcher implementations read the rewritten payee; all four extraction sites hand "
+                "fragment.account to dest_account_option and mark pending exactly under !fragment.cleared; to_double_entry defaults to "
+                "Income:Unknown / Expenses:Unknown by sign and to Pending exactly without an assigned account.  Regex outcomes are not decided.",
+        "design_ref": "DESIGN.md §4 C17",
+        "note": TRUSTED,
+        "technique": "static analysis: operand provenance (receiver/argument order of Option::or, merge, fold), boolean store tables enumerated over finite valuations, placement / adaptor-chain rules, sibling cross-check over MIR",
+    },
 }
 
 _WIP = "check not built yet in this session (design: DESIGN.md §4); not claimed until it is"
